@@ -2,9 +2,9 @@ package main
 
 import (
 	"fmt"
-	"strings"
 	"math/rand"
 	"runtime"
+	"strings"
 	"sync"
 	"time"
 
@@ -66,7 +66,7 @@ func (q *C12Query) Artist(name string) *Artist {
 	return nil
 }
 func (q *C12Query) Top() interface{} { return q.Artists[1] }
-func (q *C12Query) First() *Artist { return q.Artists[0] }
+func (q *C12Query) First() *Artist   { return q.Artists[0] }
 func (q *C12Query) Things() []interface{} {
 	return []interface{}{q.Artists[0], q.Artists[0].Songs[0], q.Artists[1]}
 }
@@ -192,11 +192,12 @@ func c12IfaceRoot() *ggql.Root {
 	return root
 }
 
-
 func c12Iter(rng *Rng, n int) (mismatch, panics, ifaceMismatch int, detail string, tags []string) {
 	mk, pool := c12Root, c12Reqs
 	if rng.Chance(30) {
 		mk, pool = c12IfaceRoot, c12IfaceReqs
+	} else if rng.Chance(35) {
+		mk, pool = c12WideRoot, c12WideReqs
 	}
 	root := mk()
 	reqs := make([]c12Req, n)
@@ -446,3 +447,67 @@ func (r *freeRoot) Resolve(f *ggql.Field, args map[string]interface{}) (interfac
 	}
 	return nil, nil
 }
+
+// ---- many object types first bound at the same moment ---------------------------------------------------
+//
+// A cold reflection root with eight object types, each reached by its own request: with eight goroutines every
+// one of them makes a first-use binding of a different type while the others make theirs (lock order between the
+// per-object mutexes; the watchdog of c12Iter turns a cycle into an observation).
+
+type C12W0 struct{ Name string }
+type C12W1 struct{ Name string }
+type C12W2 struct{ Name string }
+type C12W3 struct{ Name string }
+type C12W4 struct{ Name string }
+type C12W5 struct{ Name string }
+type C12W6 struct{ Name string }
+type C12W7 struct{ Name string }
+
+func (w *C12W0) Tag() string { return "0" + w.Name }
+func (w *C12W1) Tag() string { return "1" + w.Name }
+func (w *C12W2) Tag() string { return "2" + w.Name }
+func (w *C12W3) Tag() string { return "3" + w.Name }
+func (w *C12W4) Tag() string { return "4" + w.Name }
+func (w *C12W5) Tag() string { return "5" + w.Name }
+func (w *C12W6) Tag() string { return "6" + w.Name }
+func (w *C12W7) Tag() string { return "7" + w.Name }
+
+type C12WQuery struct {
+	W0  *C12W0
+	W1  *C12W1
+	W2  *C12W2
+	W3  *C12W3
+	W4  *C12W4
+	W5  *C12W5
+	W6  *C12W6
+	W7  *C12W7
+	Any []interface{}
+}
+type C12WSchema struct{ Query *C12WQuery }
+
+func c12WideRoot() *ggql.Root {
+	q := &C12WQuery{W0: &C12W0{"a"}, W1: &C12W1{"b"}, W2: &C12W2{"c"}, W3: &C12W3{"d"}, W4: &C12W4{"e"}, W5: &C12W5{"f"}, W6: &C12W6{"g"}, W7: &C12W7{"h"}}
+	q.Any = []interface{}{q.W7, q.W3, q.W0}
+	root := ggql.NewRoot(&C12WSchema{Query: q})
+	var b strings.Builder
+	b.WriteString("interface Tagged { tag: String }\ntype Query {")
+	for i := 0; i < 8; i++ {
+		fmt.Fprintf(&b, " w%d: C12W%d", i, i)
+	}
+	b.WriteString(" any: [Tagged] }\n")
+	for i := 0; i < 8; i++ {
+		fmt.Fprintf(&b, "type C12W%d implements Tagged { name: String tag: String }\n", i)
+	}
+	if err := root.ParseString(b.String()); err != nil {
+		panic(err)
+	}
+	return root
+}
+
+var c12WideReqs = func() []c12Req {
+	var out []c12Req
+	for i := 0; i < 8; i++ {
+		out = append(out, c12Req{fmt.Sprintf("{ w%d { name tag } }", i), nil, fmt.Sprintf("wide%d", i)})
+	}
+	return append(out, c12Req{"{ any { __typename tag } }", nil, "wide-iface"})
+}()
